@@ -135,8 +135,8 @@ let string_of_n (n : BinNums.coq_N) : string = string_of_z (BinInt.Z.of_N n)
 
 let stats (inlen : int) (s : st) (hz : site list) : string =
   let s = { s with steps = BinNat.N.add s.steps (n_of_int (inlen - Stdlib.List.length s.rest)) } in
-  Printf.sprintf "steps=%s alloc=%s spin=%s excess=%s corrupt=%d err=%s haz=%s"
-    (string_of_n s.steps) (string_of_n s.alloc) (string_of_n s.spin) (string_of_n s.excess)
+  Printf.sprintf "steps=%s alloc=%s spin=%s excess=%s um=%s rsv=%s corrupt=%d err=%s haz=%s"
+    (string_of_n s.steps) (string_of_n s.alloc) (string_of_n s.spin) (string_of_n s.excess) (string_of_n s.um) (string_of_n s.rsv)
     (if s.corrupt then 1 else 0)
     (match s.err with None -> "-" | Some k -> string_of_ek k)
     (if hz = [] then "-" else String.concat "," (Stdlib.List.map string_of_site hz))
